@@ -122,6 +122,8 @@ func init() {
 		"faults-enumerated", "scenarios-enumerated-completely")
 	props["C18"].level = "fault_enumeration"
 	props["C18"].quickS, props["C18"].thoroughS = 30, 600
+	props["C19"] = simProp("whole-engine runs in which 1..3 application tasks issue Validate, CountConnections, Dup, DupListener (right and wrong address), Register (address: the framework dials; connection: enroll; neither), Stop with live, already-cancelled and expiring contexts, at arbitrary moments: on the zero Engine value before boot, while the engine is being assembled, running, during a shutdown started elsewhere (any source, any step) and after Run returned; reference model {never-started, booting, running, stopping, stopped}: exact answers (errors by identity, -1 counts) outside the stopping window, inside it a call must return and must not succeed with a meaningless result; Stop returns nil only after OnShutdown, every OnClose and the release of listener/epoll/eventfd descriptors, returns ctx.Err() when the context ends first while the shutdown still completes (C06 monitor); every accepted Register/Enroll delivers exactly one result; descriptors handed out by Dup stay open; non-trivial = at least one control call;"+sig,
+		"control-calls", "control-calls-in-window", "register-calls", "register-succeeded", "dup-handed-out")
 	props["C07"] = simProp("same runs as C04/C06; oracle = the simulated kernel's ledger: any framework call on a closed or foreign descriptor number is a violation at that step (canaries grab freed numbers at once), every framework-created descriptor closed exactly once by the time Run returns, unix-socket file removed; non-trivial = a descriptor number was re-used or a connection closed;"+sig,
 		"fd-number-reused", "canary-grabbed")
 }
